@@ -65,6 +65,7 @@ fn main() {
                 .collect();
             let scratch = std::path::PathBuf::from(&args[4]);
             let prop = args.get(5).cloned().unwrap_or_default();
+            std::env::set_var("VERIF_INPUTS", scratch.join("inputs"));
             sos_verif_harness::init_audit(&scratch);
             let rt = tokio::runtime::Builder::new_multi_thread()
                 .worker_threads(2)
